@@ -95,6 +95,19 @@ func newFibCase(w *bufio.Writer, seed int64) *fibCase {
 		c.pfxs = append(c.pfxs, n)
 		c.in.id(n)
 	}
+	// the zero-component prefix "/" the way the wire delivers it (Name TLV `07 00`: non-nil, empty) and as a nil Name (a
+	// PrefixOp whose Name field is absent decodes to nil), and a prefix with a zero-length component
+	root, err := enc.NameFromBytes([]byte{0x07, 0x00})
+	if err != nil {
+		panic(err)
+	}
+	if root == nil {
+		root = enc.Name{}
+	}
+	for _, n := range []enc.Name{root, nil, {enc.NewStringComponent(enc.TypeGenericNameComponent, "z"), enc.NewBytesComponent(enc.TypeGenericNameComponent, []byte{})}} {
+		c.pfxs = append(c.pfxs, n)
+		c.in.id(n)
+	}
 	for _, n := range c.routers {
 		c.in.id(dvPrefix(n))
 	}
@@ -113,7 +126,7 @@ func newFibCase(w *bufio.Writer, seed int64) *fibCase {
 // cmdStr canonicalises one drained command. Commands on names outside the universe (neighbour routes under
 // /localhop, sync prefixes) are the neighbour table's business, not the installer's: reported as "o".
 func (c *fibCase) cmdStr(m nfdc.NfdMgmtCmd) string {
-	if m.Module != "rib" || m.Args == nil || m.Args.Name == nil {
+	if m.Module != "rib" || m.Args == nil {
 		return "o"
 	}
 	id, ok := c.in.known(m.Args.Name)
@@ -283,11 +296,15 @@ func (c *fibCase) exec(op string) {
 			}
 		})
 		var adds, rems []int
-		for _, a := range ops.PrefixOpAdds {
-			adds = append(adds, c.in.id(a.Name))
+		for _, a := range ops.PrefixOpAdds { // an op without a Name field (nil) is ignored by Apply: not part of the reported op
+			if a.Name != nil {
+				adds = append(adds, c.in.id(a.Name))
+			}
 		}
 		for _, a := range ops.PrefixOpRemoves {
-			rems = append(rems, c.in.id(a.Name))
+			if a.Name != nil {
+				rems = append(rems, c.in.id(a.Name))
+			}
 		}
 		seq := func(l []int) string {
 			if len(l) == 0 {
